@@ -426,6 +426,93 @@ theorem c19_rhp3_length_accounting_partial {E : Env} (hE : EnvOK E) (s : Sch) (h
     rw [(rhp4RespCodec_ok hE s hwf).roundtrip false _ r _ hc]
     simp [u64le_length]; omega
 
+/-- one RPC (subscription frame, id, request) written by `WriteRequest` is read back by the
+host's `ReadID` + `ReadRequest`, leaving exactly the rest of the stream -/
+theorem rhp3_rpc_roundtrip {E : Env} (hE : EnvOK E) (s : Sch) (hwf : s.wf E = true) (maxLen : Nat)
+    (id req : Val) (rest : Bytes) (hid : Canon E rhp3IdSch id) (hreq : Canon E s req)
+    (hfit : 9 + (enc E s req).length ≤ rhp3Limit maxLen) (hlen : 1 + (enc E s req).length < W64) :
+    rhp3HostReadRPC E s maxLen (rhp3WriteRPC E s id req ++ rest) = .ok ((id, req), rest) := by
+  -- the subscription frame
+  have hsubv : Canon E rhp3SubSch (.pair (.nat (8 + rhp3Subscriber.length)) (.pair (.bytes rhp3Subscriber) .unit)) := by
+    simp [Canon, rhp3SubSch, canon, Atom.codec, isNat, isBytes, rhp3Subscriber, W64]
+  have hsube : enc E rhp3SubSch (.pair (.nat (8 + rhp3Subscriber.length)) (.pair (.bytes rhp3Subscriber) .unit)) = rhp3SubFrame := by
+    simp [rhp3SubSch, enc, Atom.codec, rhp3SubFrame]
+  have hsubl : rhp3SubFrame.length = 20 := by decide
+  have hsub := c19_roundtrip_within_limit hE rhp3SubSch (by simp [rhp3SubSch, Sch.wf]) Framing.rhp3_minMessageSize _
+    (rhp3WriteObject E rhp3IdSch (respObj id) 0 ++ rhp3WriteObject E s (respObj req) 0 ++ rest) hsubv
+    (by rw [hsube, hsubl]; decide)
+  rw [hsube, hsubl] at hsub
+  -- the id object
+  have hidc : (rhp4RespCodec E rhp3IdSch).canon (respObj id) = true := by
+    simp [rhp4RespCodec, respObj, Codec.tagged, findTag, Codec.ofSch]; exact hid
+  have hidl : ((rhp4RespCodec E rhp3IdSch).enc (respObj id)).length = 17 := by
+    have := respObj_length E rhp3IdSch id
+    simp only [rhp4WriteResponse] at this
+    rw [this]
+    cases id <;> simp [Canon, rhp3IdSch, canon, Atom.codec, isBytes] at hid
+    simp [rhp3IdSch, enc, Atom.codec, hid]
+  have hidr := (c19_rhp3_length_accounting_partial hE rhp3IdSch rfl 16 (respObj id)
+    (rhp3WriteObject E s (respObj req) 0 ++ rest) hidc (by rw [hidl]; decide) (by rw [hidl]; decide)).2
+  rw [hidl] at hidr
+  have hidw : (rhp3WriteObject E rhp3IdSch (respObj id) 0).length = 25 := by
+    simp [rhp3WriteObject, u64le_length, hidl]
+  -- the request object
+  have hrc : (rhp4RespCodec E s).canon (respObj req) = true := by
+    simp [rhp4RespCodec, respObj, Codec.tagged, findTag, Codec.ofSch]; exact hreq
+  have hrl : ((rhp4RespCodec E s).enc (respObj req)).length = 1 + (enc E s req).length := by
+    have := respObj_length E s req
+    simp only [rhp4WriteResponse] at this; exact this
+  have hrr := (c19_rhp3_length_accounting_partial hE s hwf maxLen (respObj req) rest hrc
+    (by rw [hrl]; omega) (by rw [hrl]; exact hlen)).2
+  have hrw : (rhp3WriteObject E s (respObj req) 0).length = 8 + ((rhp4RespCodec E s).enc (respObj req)).length := by
+    simp [rhp3WriteObject, u64le_length]
+  -- assemble
+  simp only [respObj] at hidr hidw hrr hrw
+  simp only [rhp3HostReadRPC, rhp3WriteRPC, List.append_assoc, respObj] at hsub ⊢
+  rw [hsub]
+  dsimp only
+  rw [if_neg (by simp)]
+  rw [show (rhp3SubFrame ++ (rhp3WriteObject E rhp3IdSch (Val.pair (Val.nat 0) id) 0 ++
+        (rhp3WriteObject E s (Val.pair (Val.nat 0) req) 0 ++ rest))).drop 20
+      = rhp3WriteObject E rhp3IdSch (Val.pair (Val.nat 0) id) 0 ++ (rhp3WriteObject E s (Val.pair (Val.nat 0) req) 0 ++ rest) by
+    rw [← hsubl]; simp]
+  rw [hidr]
+  simp only []
+  rw [show (rhp3WriteObject E rhp3IdSch (Val.pair (Val.nat 0) id) 0 ++
+        (rhp3WriteObject E s (Val.pair (Val.nat 0) req) 0 ++ rest)).drop (8 + 17)
+      = rhp3WriteObject E s (Val.pair (Val.nat 0) req) 0 ++ rest by
+    rw [show 8 + 17 = 25 from rfl, ← hidw]; simp]
+  rw [hrr]
+  simp only []
+  rw [← hrw]
+  simp
+
+/-- **c19_rhp3_sequence_roundtrip**: `k` RPCs written one after the other on ONE rhp/v3 stream
+(each with its own subscription frame, as `WriteRequest` does) are read back by the host as the
+same `k` (id, request) pairs, in order, leaving the rest of the stream — over a symbolic mux
+(an ordered, lossless byte stream). A writer that sent the subscription frame only once would
+not satisfy this: the host's `ReadID` expects one before EVERY id. -/
+theorem c19_rhp3_sequence_roundtrip {E : Env} (hE : EnvOK E) (s : Sch) (hwf : s.wf E = true) (maxLen : Nat)
+    (rpcs : List (Val × Val)) (rest : Bytes)
+    (h : ∀ r ∈ rpcs, Canon E rhp3IdSch r.1 ∧ Canon E s r.2 ∧
+      9 + (enc E s r.2).length ≤ rhp3Limit maxLen ∧ 1 + (enc E s r.2).length < W64) :
+    rhp3HostReadSeq E s maxLen rpcs.length (rhp3WriteSeq E s rpcs ++ rest) = .ok (rpcs, rest) := by
+  induction rpcs with
+  | nil => rfl
+  | cons r rs ih =>
+    obtain ⟨id, req⟩ := r
+    obtain ⟨h1, h2, h3, h4⟩ := h (id, req) (by simp)
+    simp only [List.length_cons, rhp3HostReadSeq, rhp3WriteSeq, List.append_assoc]
+    rw [rhp3_rpc_roundtrip hE s hwf maxLen id req _ h1 h2 h3 h4]
+    simp only
+    rw [ih (fun r hr => h r (by simp [hr]))]
+
+/-- the second RPC of a stream without its own subscription frame is NOT read back: the host
+takes the id object's length prefix for the subscription frame (model of the seeded defect) -/
+example : rhp3HostReadRPC Env.default (.fixed 1) 100
+    (rhp3WriteObject Env.default rhp3IdSch (respObj (.bytes (List.replicate 16 7))) 0 ++
+      rhp3WriteObject Env.default (.fixed 1) (respObj (.bytes [9])) 0) = .error .invalid := rfl
+
 /-! ## ties: the constants and limit expressions the model uses are the ones in the code -/
 
 theorem tie_rhp4_read_limits :
